@@ -336,6 +336,15 @@ def gen_values(ctx):
         for d in deco:
             for ty in ["short", "ushort", "fv1l", "vecl", "vecu"]:
                 cases.append("get %s %s" % (ty, X(d % v)))
+    for v in lims:
+        for d in deco[:8]:
+            for ty in ["llong", "ullong"]:
+                cases.append("get %s %s" % (ty, X(d % v)))
+    for st in ["", "a", " a", "a ", "ab", "1", "\xff", " \x00 ", "-", "  "]:
+        for ty in ["uchar", "schar"]:
+            cases.append("get %s %s" % (ty, X(st)))
+    for st in ["1 2", "1  2 3", "", " ", "1 x", "1 -", "2147483648"]:
+        cases.append("get vecvec %s" % X(st))
     C = ["1", "-", " ", "x", "."]
     for n in range(0, 5):
         for t in itertools.product(C, repeat=n):
@@ -349,6 +358,8 @@ def gen_values(ctx):
     dnum = ["0", "-0", "1", "0.1", ".5", "5.", "1e3", "1E-3", "+2.5e+2", "1e308", "1.7976931348623157e308", "1.7976931348623159e308", "1e309",
             "-1e400", "4.9e-324", "2.4e-324", "1e-400", "123456789012345678901234567890", "0.30000000000000004", "9007199254740993",
             "1e", "1e+", ".", "-.", "1.2.3", "0x10", "inf", "nan", "1,5", "1d3", "1f", "00.5", "1e05", "1 ", "\t1.5\n", "1.5x", "--1"]
+    for a in dnum + ["3.4028235e38", "3.4028236e38", "3.40282357e38", "1e39", "1.401298464324817e-45", "7e-46", "16777217", "0.1", "1e-50"]:
+        cases.append("get flt %s" % X(a))
     for a in dnum:
         cases.append("get dbl %s" % X(a))
         cases.append("get vecd %s" % X(a))
@@ -414,13 +425,41 @@ def gen_argv(ctx):
 
 # ------------------------------------------------------------------ oracle
 
+def conv32(m):
+    """exact decimal -> binary32, correctly rounded (ties to even); beyond the finite range: overflow"""
+    import struct
+    from fractions import Fraction
+    neg, man, ex = m.group(1) == "-", int(m.group(2)), int(m.group(3))
+    if man == 0 or ex < -200:
+        bits = 0
+    elif ex > 60 - len(str(man)) + 20:
+        return "f:overflow"
+    else:
+        x = Fraction(man) * Fraction(10) ** ex
+        if x >= Fraction(2 ** 25 - 1, 2 ** 24) * 2 ** 127:
+            return "f:overflow"
+        b0 = struct.unpack(">I", struct.pack(">f", min(float(x), 3.4028234663852886e38)))[0]
+        best = None
+        for b in (b0 - 1, b0, b0 + 1):
+            if b < 0 or b >= 0x7f800000:
+                continue
+            v = Fraction(struct.unpack(">f", struct.pack(">I", b))[0])
+            key = (abs(v - x), b & 1)
+            if best is None or key < best[0]:
+                best = (key, b)
+        bits = best[1]
+    if neg:
+        bits |= 0x80000000
+    return "f:%08x" % bits
+
+
 def round_doubles(line):
     """Model lines carry doubles as exact decimals d:<sign>:<mantissa>:<exp10>; the implementation prints the IEEE bit
     pattern.  Round correctly (exact rational -> binary64, as a correct strtod does); a value beyond the finite
     range makes the extraction fail."""
     import struct
     from fractions import Fraction
-    if "d:" not in line:
+    if "d:" not in line and "f:" not in line:
         return line
     over = []
 
@@ -445,7 +484,8 @@ def round_doubles(line):
             v = -v
         return "d:" + struct.pack(">d", v).hex()
     out = re.sub(r"d:([+-]):(\d+):(-?\d+)", conv, line)
-    return "EXC RangeError" if over else out
+    out = re.sub(r"f:([+-]):(\d+):(-?\d+)", conv32, out)
+    return "EXC RangeError" if (over or "f:overflow" in out) else out
 
 
 DBL_RE = re.compile(r"[ \t\n\x0b\x0c\r]*[+-]?(\d+\.?\d*|\.\d+)([eE][+-]?\d+)?[ \t\n\x0b\x0c\r]*")
@@ -488,6 +528,96 @@ def spec_report(assigns, prefix):
     return rep((), assigns)
 
 
+def nested_dump(assigns):
+    """dump of the tree holding these (path, value) assignments, keys in order of first appearance"""
+    vals, subs, order = {}, {}, []
+    for p, v in assigns:
+        if len(p) == 1:
+            if p[0] not in vals:
+                order.append(p[0])
+            vals[p[0]] = v
+        else:
+            if p[0] not in subs:
+                subs[p[0]] = []
+            subs[p[0]].append((p[1:], v))
+    out = "{" + "".join("%s=%s;" % (k.hex(), vals[k].hex()) for k in order) + "|"
+    for k in subs:
+        out += k.hex() + nested_dump(subs[k])
+    return out + "}"
+
+
+def related(p, q):
+    m = min(len(p), len(q))
+    return p[:m] == q[:m]
+
+
+def gen_seq(ctx):
+    """Object histories: several sources and command lines into one tree (or into one of its subtrees), also after
+    rejected ones.  Where every step is well-formed the expected tree is computed here, independently."""
+    rng = ctx.rng("seq")
+    cases = []
+    segs = ["a", "b", "c", "k1", "x y"]
+    for _ in range(1500 if ctx.quick else 20000):
+        target = rng.choice(["-", "-", "t", "t.u", "a"])
+        tpath = () if target == "-" else tuple(target.split("."))
+        wellformed = rng.random() < 0.65
+        cur, steps = [], []
+        for _ in range(rng.choice([1, 2, 2, 3, 4])):
+            kind = rng.choice(["I0", "I1", "I1", "O"])
+            n = rng.choice([0, 1, 2, 3])
+            paths, tries = [], 0
+            while len(paths) < n and tries < 50:
+                tries += 1
+                p = tuple(rng.choice(segs if kind != "O" else segs[:4]) for _ in range(rng.choice([1, 1, 2, 3])))
+                full = tpath + p
+                if any(related(full, q) and full != q for q, _ in cur):
+                    continue                      # would be a value/subtree clash
+                if any(related(p, q) for q, _ in paths):
+                    continue
+                paths.append((p, ("v%d" % rng.randrange(100)).encode()))
+            if not wellformed and rng.random() < 0.5:
+                z = rng.random()
+                if z < 0.4 and paths:
+                    paths.append(paths[0])            # duplicate within one source
+                elif z < 0.7 and cur:
+                    q = rng.choice(cur)[0][len(tpath):] or ("zz",)
+                    paths.append((q + ("deeper",), b"clash"))  # a value used as subtree
+                else:
+                    paths.append((("",), b"empty-key"))
+            if kind == "O":
+                args = []
+                for p, v in paths:
+                    args += ["-" + ".".join(p), v.decode()]
+                steps.append((kind, L(args)))
+            else:
+                doc = "".join("%s = %s\n" % (".".join(p), v.decode()) for p, v in paths)
+                steps.append((kind, X(doc)))
+            for p, v in paths:
+                full = tpath + p
+                if any(q == full for q, _ in cur):
+                    if kind != "I0":
+                        cur = [(q, (v if q == full else w)) for q, w in cur]
+                else:
+                    cur.append((full, v))
+        line = "seq %s %s" % (target if target == "-" else X(target), " ".join("%s %s" % st for st in steps))
+        if wellformed:
+            want = nested_dump([(tuple(s_.encode() for s_ in p), v) for p, v in cur])
+            if not cur:
+                for seg in reversed(tpath):   # sub(target) has created the (empty) subtrees
+                    want = "{|" + seg.encode().hex() + want + "}"
+            line += " E=" + want
+        cases.append(line)
+    # sizes: a long value, many keys, deep nesting, long runs of blanks
+    cases.append("ini 1 x %s %s" % (X("k = " + "v" * 100000 + "\n"), L(["k"])))
+    cases.append("ini 1 x %s %s" % (X("".join("k%d = %d\n" % (i, i) for i in range(3000))), L(["k0", "k2999"])))
+    deep = ".".join("d%d" % i for i in range(300))
+    cases.append("ini 1 x %s %s" % (X(deep + " = deep\n"), L([deep, "d0"])))
+    cases.append("ini 1 x %s %s" % (X(" " * 50000 + "[" + " " * 50000 + "g" + " " * 1000 + "]\n" + "\t" * 20000 + "k=1"), L(["g.k"])))
+    cases.append("get vec %s" % X(" ".join(str(i) for i in range(5000))))
+    cases.append("get string %s" % X(" " * 30000 + "s" + "\t" * 30000))
+    return cases
+
+
 def case_kind(c):
     t = c.split()
     if t[0] in ("ini", "inif"):
@@ -498,6 +628,8 @@ def case_kind(c):
 
 
 def sig_of(c, impl, spec, reason=""):
+    if reason.startswith("aliasing assignment"):
+        return "C12:tree:alias-assign"
     if reason.startswith("copy/assignment"):
         return "C12:tree:copy"
     if reason.startswith("all readINITree overloads"):
@@ -539,6 +671,13 @@ def oracle(c, impl, spec):
     if impl.startswith("CRASH") or impl.startswith("HANG") or impl.startswith("NOT-RUN"):
         return "arbitrary input must not crash or hang: " + impl
     t = c.split()
+    if t[0] == "seq":
+        if t[-1].startswith("E="):
+            sts, _, d = impl.partition(" ")
+            if set(sts.split(",")) - {"ok", ""}:
+                return "every source of this history is well-formed and must be accepted, statuses: " + sts
+            return None if d == t[-1][2:] else "after this history the tree must be %s" % t[-1][2:][:300]
+        return None
     if t[0] == "get" and t[1] == "dbl":
         want = spec_double(bytes.fromhex(t[2][1:]).decode("latin-1"))
         return None if want == "?" or impl == want else "the text denotes %s" % want
@@ -603,6 +742,9 @@ def oracle_api(t, impl, spec):
     m = re.search(r" C=(.*?) ov=(.*)$", impl)
     if not m:
         return "api observation missing"
+    al = re.search(r" AL=(\S+)", impl)
+    if al and al.group(1) != "ok":
+        return "aliasing assignment (the source is a subtree of the target / contains the target) must read the source first: " + al.group(1)
     if m.group(1) != "ok":
         return "copy/assignment/move must give an equal, independent tree: " + m.group(1)
     if m.group(2) != "ok":
@@ -626,6 +768,14 @@ def oracle_api(t, impl, spec):
             return "sub(key, true) must raise RangeError for a missing subtree, returned %s" % tt
         if mm_ != "E" and hs != "1":
             return "after a non-const sub(key) that returned, hasSub(key) must hold (got %s)" % hs
+    # a copy of a MISSING subtree is a copy of the static empty tree, whose prefix is documented as "<unknown>"
+    rcm = re.search(r" rc=(\S+)", impl)
+    if rcm and qs:
+        q0 = re.fullmatch(r"h([01E])s([01E])g(x[0-9a-f]*|E)", qs[0])
+        if q0 and q0.group(2) == "0" and rcm.group(1) != "E":
+            want = b'[ <unknown>n ]\nm = "1"\n'.hex()
+            if rcm.group(1) != want:
+                return "report() of a copy of a missing subtree (prefix <unknown>) after sc[\"n.m\"]=1 must be %r" % bytes.fromhex(want)
     # report() -> readINITree(): where the tree is a printable hierarchy, the text must be accepted and every
     # entry must come back (the re-read tree lists keys in report order: sorted)
     rtm = re.search(r" rt=([01]+)$", spec)
@@ -719,17 +869,21 @@ def run(ctx):
     streams.append(("malformed", gen_malformed(ctx, 6000 if quick else 100000)))
     streams.append(("values", gen_values(ctx)))
     streams.append(("argv", gen_argv(ctx)))
+    streams.append(("histories", gen_seq(ctx)))
     cases, tags = [], []
     for name, cs in streams:
         cases += cs
         tags += [name] * len(cs)
     ctx.log("generated %d cases (%s)" % (len(cases), ", ".join("%s=%d" % (n, len(c)) for n, c in streams)))
-    mo = V.run_cases(ctx, [model], cases, tag="model", timeout=900)
-    io = V.run_cases(ctx, [impl], cases, tag="impl", timeout=60 if quick else 300)
+    mo = V.run_cases(ctx, [model], cases, tag="model", timeout=3600)
+    # generous budgets: a loaded machine must not look like a hang (a real hang costs this once, later ones 10 s)
+    io = V.run_cases(ctx, [impl], cases, tag="impl", timeout=900 if quick else 3600)
+    io = confirm_hangs(ctx, impl, cases, io)
     # sanitizer build: everything malformed + corpus + a subsample of the rest
     step = 9 if quick else 4
     sub = [i for i, tg in enumerate(tags) if tg in ("malformed", "corpus") or i % step == 0]
-    so = V.run_cases(ctx, [impl_san], [cases[i] for i in sub], tag="san", timeout=300 if quick else 1500)
+    so = V.run_cases(ctx, [impl_san], [cases[i] for i in sub], tag="san", timeout=1800 if quick else 7200)
+    so = confirm_hangs(ctx, impl_san, [cases[i] for i in sub], so)
     # locale independence: the value stream again under a global C++ locale with decimal comma and digit grouping
     vidx = [i for i, tg in enumerate(tags) if tg == "values"]
     lo = run_with_arg(ctx, impl, [cases[i] for i in vidx], "comma-locale")
@@ -772,7 +926,10 @@ def run(ctx):
         elif mt in variants:
             variants[mt] += 1
     for j, i in enumerate(sub):
-        if j < len(so) and so[j] != io[i]:
+        # the verdict of an undefined aliasing assignment (F-C12-4) may differ between the builds; and the sanitizer
+        # build runs that test on fewer cases
+        nrm = lambda x: re.sub(r" AL=\S+", " AL=*", x)
+        if j < len(so) and nrm(so[j]) != nrm(io[i]):
             ctx.violation("C12:%s:sanitizer" % cases[i].split()[0], {"case": cases[i], "readable": decode_case(cases[i]), "impl": io[i], "impl_sanitized_build": so[j],
                                                                      "oracle": "ASan/UBSan build behaves differently or aborts"})
     for j, i in enumerate(vidx):
@@ -811,6 +968,18 @@ def run(ctx):
     ctx.assumptions += ["std::num_get integer extraction is modelled (sign, digits, overflow => failbit, eofbit when the text ends inside a number)",
                         "floating-point text conversion (strtod) not modelled: get<double>/FieldVector<double,n> are outside the checked set",
                         "report() (std::map order) not modelled"]
+
+
+def confirm_hangs(ctx, exe, cases, obs):
+    """A case reported as HANG / NOT-RUN is run again alone with its own budget before it counts (DESIGN 2.4:
+    a hang reproduces, a loaded machine does not)."""
+    out = list(obs)
+    redo = [i for i, o in enumerate(out) if o.startswith("HANG") or o.startswith("NOT-RUN")]
+    for i in redo[:200]:
+        r = V.run_cases(ctx, [exe], [cases[i]], tag="rehang", timeout=120)
+        if r:
+            out[i] = r[0]
+    return out
 
 
 def run_with_arg(ctx, exe, cases, arg):
